@@ -237,6 +237,142 @@ def charset_subset(chars):
     return f
 
 
+_RX_CACHE = {}
+
+
+def regex_to_z3(pattern, flags=0):
+    """z3 regular expression of a Python pattern, for the subset: literals, character classes with ranges (also negated),
+    \\d \\w \\s, '.', groups, alternation, ? * + {m,n}, a leading ^ and a trailing $.  None when outside the subset (the caller
+    falls back to an uninterpreted function).  ASSUMED: '$' only matches at the very end (Python also accepts a final newline)."""
+    key = (pattern, flags)
+    if key in _RX_CACHE:
+        return _RX_CACHE[key]
+    try:
+        import re._parser as sre_parse
+        import re._constants as C
+    except ImportError:                      # Python < 3.11
+        import sre_parse
+        import sre_constants as C
+    if flags & ~_re.UNICODE:
+        _RX_CACHE[key] = None
+        return None
+
+    class Bad(Exception):
+        pass
+
+    def chars(cs):
+        cs = list(cs)
+        return z3.Union(*[z3.Re(c) for c in cs]) if len(cs) > 1 else z3.Re(cs[0])
+    CATS = {C.CATEGORY_DIGIT: z3.Range('0', '9'),
+            C.CATEGORY_WORD: z3.Union(z3.Range('a', 'z'), z3.Range('A', 'Z'), z3.Range('0', '9'), z3.Re('_')),
+            C.CATEGORY_SPACE: chars(' \t\n\r\x0b\x0c')}
+    ANY = z3.AllChar(z3.ReSort(z3.StringSort()))
+
+    def seq(items):
+        parts = [one(op, av) for op, av in items]
+        parts = [p_ for p_ in parts if p_ is not None]
+        if not parts:
+            return z3.Re('')
+        return z3.Concat(*parts) if len(parts) > 1 else parts[0]
+
+    def cls(items):
+        neg = False
+        alts = []
+        for op, av in items:
+            if op is C.NEGATE:
+                neg = True
+            elif op is C.LITERAL:
+                alts.append(z3.Re(chr(av)))
+            elif op is C.RANGE:
+                alts.append(z3.Range(chr(av[0]), chr(av[1])))
+            elif op is C.CATEGORY and av in CATS:
+                alts.append(CATS[av])
+            else:
+                raise Bad()
+        r = z3.Union(*alts) if len(alts) > 1 else alts[0]
+        return z3.Intersect(ANY, z3.Complement(r)) if neg else r
+
+    def one(op, av):
+        if op is C.LITERAL:
+            return z3.Re(chr(av))
+        if op is C.ANY:
+            return z3.Intersect(ANY, z3.Complement(z3.Re('\n')))
+        if op is C.NOT_LITERAL:
+            return z3.Intersect(ANY, z3.Complement(z3.Re(chr(av))))
+        if op is C.IN:
+            return cls(av)
+        if op is C.CATEGORY and av in CATS:
+            return CATS[av]
+        if op in (C.MAX_REPEAT, C.MIN_REPEAT):
+            lo, hi, sub = av
+            r = seq(sub)
+            if hi is C.MAXREPEAT:
+                return z3.Star(r) if lo == 0 else (z3.Plus(r) if lo == 1 else z3.Concat(z3.Loop(r, lo, lo), z3.Star(r)))
+            if (lo, hi) == (0, 1):
+                return z3.Option(r)
+            return z3.Loop(r, lo, hi)
+        if op is C.SUBPATTERN:
+            if len(av) == 4 and (av[1] or av[2]):
+                raise Bad()                  # scoped inline flags (?i:...)
+            return seq(av[-1])
+        if op is C.BRANCH:
+            alts = [seq(x) for x in av[1]]
+            return z3.Union(*alts) if len(alts) > 1 else alts[0]
+        raise Bad()
+    try:
+        parsed = sre_parse.parse(pattern, flags)
+        if parsed.state.flags & ~(_re.UNICODE | flags):
+            raise Bad()                      # inline flags such as (?i)
+        items = list(parsed)
+        start = end = False
+        if items and items[0][0] is C.AT and items[0][1] in (C.AT_BEGINNING, C.AT_BEGINNING_STRING):
+            start, items = True, items[1:]
+        if items and items[-1][0] is C.AT and items[-1][1] in (C.AT_END, C.AT_END_STRING):
+            end, items = True, items[:-1]
+        if any(op is C.AT for op, _ in items):
+            raise Bad()
+        body = seq(items)
+        res = (body, start, end)
+    except Exception:      # noqa  (outside the subset, or a parser of another Python version)
+        res = None
+    _RX_CACHE[key] = res
+    if res is not None and not _regex_selftest(pattern, flags):
+        _RX_CACHE[key] = res = None          # the translation disagrees with `re` on a sampled string: do not trust it
+    return res
+
+
+def _regex_selftest(pattern, flags):
+    """guard of the translation: on 60 strings over the pattern's own characters it must agree with Python's `re`"""
+    import random
+    rng = random.Random(len(pattern) * 7919 + sum(map(ord, pattern)))
+    alphabet = sorted(set(c for c in pattern if c.isalnum() or c in " .,<>=!'+-_$:%#") | set('a0Z9 .'))
+    for kind in ('match', 'search', 'fullmatch'):
+        for _ in range(20):
+            txt = ''.join(rng.choice(alphabet) for _ in range(rng.randrange(0, 8)))
+            want = getattr(_re, kind)(pattern, txt, flags) is not None
+            got = z3.simplify(regex_matches(pattern, kind, txt, flags).t)
+            if not (z3.is_true(got) if want else z3.is_false(got)):
+                return False
+    return True
+
+
+def regex_matches(pattern, kind, s, flags=0):
+    """Sym bool: does re.<kind>(pattern, s) succeed?  exact (z3 regular expression) where the pattern is in the subset, else uninterpreted"""
+    rx = regex_to_z3(pattern, flags)
+    if rx is None:
+        return re_match_uf(pattern, kind)(s)
+    body, start, end = rx
+    anyseq = z3.Star(z3.AllChar(z3.ReSort(z3.StringSort())))
+    parts = []
+    if kind == 'search' and not start:
+        parts.append(anyseq)
+    parts.append(body)
+    if kind != 'fullmatch' and not end:
+        parts.append(anyseq)
+    full = z3.Concat(*parts) if len(parts) > 1 else parts[0]
+    return Sym(z3.InRe(lift(s).t, full), 'bool')
+
+
 def re_match_uf(pattern, kind):
     key = (kind, pattern)
     if key not in RE_MATCH:
@@ -460,6 +596,8 @@ def symobj_attr(it, o, attr):
 def native_method(it, f, args, kwargs):
     recv = f.__self__
     name = f.__name__
+    if isinstance(recv, _re.Pattern) and name in ('match', 'search', 'fullmatch') and args and is_sym(args[0]) and len(args) == 1:
+        return ReMatch(regex_matches(recv.pattern, name, args[0], recv.flags & ~_re.UNICODE))
     symarg = any(is_sym(a) or isinstance(a, SymObject) for a in args)
     if isinstance(recv, (list, tuple)):
         if name in ('append', 'extend', 'insert', 'clear', 'reverse', 'copy', '__len__'):
@@ -1105,8 +1243,9 @@ def m_re(kind):
         if is_sym(pattern):
             raise Unsupported('symbolic regex')
         if is_sym(s):
-            r = re_match_uf(pattern, kind)(s)
-            return ReMatch(r)
+            if is_sym(flags):
+                raise Unsupported('symbolic regex flags')
+            return ReMatch(regex_matches(pattern, kind, s, int(flags)))
         return it.native(getattr(_re, kind), [pattern, s, flags], {})
     return m
 
